@@ -223,6 +223,24 @@ def signature_limit_cases():
     return None
 
 
+def nonstring_signature_cases():
+    """header field 8 sent with a value that is no string - an array, a number, a boolean; empty or zero ones too - is refused, in
+    either byte order (a bus that passed it on would hand its peers a message they cannot parse)"""
+    from txdbus import message
+    from txdbus.error import MarshallingError
+    for vsig, val in (('as', []), ('as', ['s']), ('u', 0), ('u', 7), ('b', False), ('d', 0.0), ('ay', []), ('i', 0)):
+        for le in (True, False):
+            raw = ref_message(1, 0, 3, [(1, '/p'), (3, 'M'), (6, 'a.victim')], None, None, le, extra_fields=[(8, vsig, val)])
+            try:
+                m = message.parseMessage(raw, [])
+            except MarshallingError:
+                continue
+            except Exception as e:
+                return 'a %s-endian call whose SIGNATURE header field holds the %s value %r raised %s instead of MarshallingError' % ('little' if le else 'big', vsig, val, type(e).__name__)
+            return 'a %s-endian call whose SIGNATURE header field holds the %s value %r was accepted (signature attribute %r)' % ('little' if le else 'big', vsig, val, m.signature)
+    return None
+
+
 def long_value_cases():
     """header fields without a length limit of their own - an object path, a destination's ... no: only the PATH - may be long; string
     values of the body may be long; such messages are built and parsed, in either byte order, whatever the order of the fields"""
@@ -421,7 +439,7 @@ def bounded(tier, seed):
             f, raw = foreign_case(rnd, kind, fields, flags, serial, body_sig, body_vals, le)
             if f:
                 return n, f, {'raw': raw.hex()}
-    for case in (invalid_name_cases, descriptor_header_cases, signature_limit_cases, long_value_cases):
+    for case in (invalid_name_cases, descriptor_header_cases, signature_limit_cases, long_value_cases, nonstring_signature_cases):
         n += 1
         f = case()
         if f:
